@@ -6,7 +6,7 @@ import collections
 from hypothesis import strategies as st
 
 from ..common import Result, chash, scratch_dir
-from ..conc import run_scheduled, share_handle
+from ..conc import is_flip, run_scheduled, share_handle
 from ..hist import FIELDS
 from ..hyp import campaign
 from ..lib import run_read
@@ -20,12 +20,12 @@ LEVEL = "exploration"
 RULE = ("1-2 readers x 1-3 writers on a table with 0-3 prior snapshots (local and conditional-write S3, separate or shared handles). Reader = 1-2 successive "
         "reads on one handle, each from {scan, scan(parallel=2), scan_batches(1/3/1000), iter_records, row_count} with/without filter, projection, checksum "
         "verification; writer from {append, multi-append transaction, delete_files, explicit rollback after append_data, commit forced to fail at the pointer "
-        "write, append with one I/O error injected at the j-th low-level step AFTER the pointer rename}. Interleavings are owned by the deterministic scheduler (yield at storage-API calls, lock syscalls, atomic publishes, S3 requests): exhaustive "
+        "write, append with one I/O error injected at the j-th low-level step AFTER the pointer rename, replace-a-file + expire + garbage_collect(grace 0)}. Interleavings are owned by the deterministic scheduler (yield at storage-API calls, lock syscalls, atomic publishes, S3 requests): exhaustive "
         "single-preemption enumeration for fixed reader x writer scenarios and Hypothesis PCT schedules (<=3 change points) over generated scenarios. Oracle: "
         "from the pointer-flip log the sequence S0,S1,.. of committed current snapshots with the step interval during which each was current; a read over "
         "steps [a,b] must RETURN exactly rows(Si) (filtered/projected by the reference evaluator) for some i whose interval intersects [a,b]; successive reads "
         "on one handle map to non-decreasing i. Non-trivial: a flip happened strictly inside [a,b]. distinct = (scenario, schedule).")
-ASSUMPTIONS = ["garbage collection and snapshot expiry are not among C02's writers (C05/C06/C09)", "thread-pool workers of a parallel scan are not scheduled individually"]
+ASSUMPTIONS = ["the only collecting writer is 'replace + expire everything older, then garbage_collect(grace 0)': a read of a snapshot whose files were collected may raise (missing file); if it returns, it returns a whole committed snapshot", "thread-pool workers of a parallel scan are not scheduled individually"]
 REQUIRED_LABELS = {"quick": ["flip-inside-read", "empty-base", "two-reads"], "thorough": ["flip-inside-read"]}
 
 READ_APIS = ["scan", "scan_par2", "batches1", "batches3", "batches_big", "iter_records", "row_count"]
@@ -72,6 +72,25 @@ def writer_fn(t, w, idx, base, world, sch=None):
                 tx.delete_files([p])
                 tx.append_data([{"k": 600 + idx, "s": f"rep{idx}"}])
                 return tx.commit()
+
+        return f
+    if kind == "replace_gc":
+        # one transaction deletes a file, appends its replacement and expires every older snapshot; then the old files are collected
+        if not files:
+            return lambda: None
+        p = files[w.get("which", 0) % len(files)]
+
+        def f():
+            with t.new_transaction() as tx:
+                tx.delete_files([p])
+                tx.append_data([{"k": 800 + idx, "s": f"rg{idx}"}])
+                tx.expire_snapshots(10**15)
+                tx.commit()
+            try:
+                t.garbage_collect(grace_period_ms=0)
+            except Exception:
+                return "gc-raised"
+            return "collected"
 
         return f
     if kind == "rollback":
@@ -183,7 +202,18 @@ def run_case(case):
         late = {len(sc["readers"]) + wi: {"j": wsp.get("j", 1), "flipped": False, "n": 0, "done": False}
                 for wi, wsp in enumerate(sc["writers"]) if wsp["op"] == "late_fault" and world.kind == "local"}
 
+        collecting = any(wsp["op"] == "replace_gc" for wsp in sc["writers"])
+        views_at_flip = {}
+
         def on_event(sch, a, phase, label, target, info):
+            if collecting and is_flip(world.kind, phase, label, target, info):
+                # with a collector among the writers older versions lose their files later: read each version when it becomes current
+                try:
+                    content = world.fs().get(HINT).decode().strip()
+                    if content not in views_at_flip:
+                        views_at_flip[content] = read_view(world.fs(), metadata_file=content)
+                except Exception:
+                    pass
             stt = late.get(a.idx)
             if stt is None or stt["done"]:
                 return
@@ -199,7 +229,7 @@ def run_case(case):
                     if not label.endswith("os.close"):
                         raise OSError(5, "injected I/O error after the pointer rename")
 
-        run = run_scheduled(world, make_actors, case["schedule"], seed=case.get("seed", 0), on_event=on_event if late else None)
+        run = run_scheduled(world, make_actors, case["schedule"], seed=case.get("seed", 0), on_event=on_event if (late or collecting) else None)
         out["labels"] += [f"world:{sc['world']}", f"topo:{sc['topology']}"] + (["empty-base"] if sc["nprior"] == 0 else [])
         if run.error is not None:
             out["violations"].append((f"scheduler/{type(run.error).__name__}", str(run.error)[:200]))
@@ -213,7 +243,7 @@ def run_case(case):
         versions = [(0, base)]
         for step, aidx, content in run.flips:
             try:
-                versions.append((step, read_view(fs, metadata_file=content)))
+                versions.append((step, views_at_flip[content] if content in views_at_flip else read_view(fs, metadata_file=content)))
             except ReadError as e:
                 out["violations"].append(("flip-to-unreadable-version", str(e)))
                 return out
@@ -236,6 +266,9 @@ def run_case(case):
                 continue
             if spec.get("fault"):
                 out["labels"].append("faulted-read-returned")
+            if r[0] == "raise" and collecting and (isinstance(r[1], FileNotFoundError) or "exist" in str(r[1]) or "No such file" in str(r[1]) or "missing" in str(r[1]).lower()):
+                out["labels"].append("read-raised-after-collection")  # the snapshot being read was expired and collected: failing closed is right
+                continue
             if r[0] == "raise":
                 out["violations"].append((f"read-raised/{type(r[1]).__name__}", f"reader {ri} read {qi} ({spec}) over steps [{a},{b}] raised {type(r[1]).__name__}: {str(r[1])[:160]}"))
                 continue
@@ -278,6 +311,7 @@ FIXED = [
     {"world": "local", "topology": "separate", "nprior": 1, "readers": [[read_spec(api="iter_records", fault=3), read_spec(api="scan")]], "writers": [{"op": "failing"}, {"op": "append"}]},
     {"world": "local", "topology": "separate", "nprior": 2, "readers": [[read_spec(api="scan"), read_spec(api="row_count")]], "writers": [{"op": "replace", "which": 0}, {"op": "append"}]},
     {"world": "local", "topology": "separate", "nprior": 1, "readers": [[read_spec(api="scan"), read_spec(api="row_count")]], "writers": [{"op": "late_fault", "j": 2}]},
+    {"world": "local", "topology": "separate", "nprior": 3, "readers": [[read_spec(api="scan"), read_spec(api="batches1")]], "writers": [{"op": "replace_gc", "which": 1}]},
 ]
 # two readers on ONE shared handle (threads sharing a Table) + a writer: anything a read leaves on the handle must not leak into the other reader
 RICH = [
@@ -334,7 +368,10 @@ def pct_case(draw):
             cols = draw(st.sampled_from([None, None, ["k"], ["s"]])) if api != "row_count" else None
             reads.append(read_spec(api=api, flt=flt, cols=cols, verify=draw(st.sampled_from([None, False])), fault=draw(st.sampled_from([0, 0, 0, 1, 2, 3]))))
         readers.append(reads)
-    writers = [{"op": draw(st.sampled_from(["append", "multi", "delete", "replace", "rollback", "failing", "late_fault"])), "which": draw(st.integers(0, 2)), "j": draw(st.integers(1, 8))} for _ in range(draw(st.integers(1, 3)))]
+    writers = [{"op": draw(st.sampled_from(["append", "multi", "delete", "replace", "rollback", "failing", "late_fault", "replace_gc"])), "which": draw(st.integers(0, 2)), "j": draw(st.integers(1, 8))} for _ in range(draw(st.integers(1, 3)))]
+    if any(w_["op"] == "replace_gc" for w_ in writers):
+        # a collection with grace 0 legitimately breaks OTHER in-flight writers (their temp files are old enough): keep it alone
+        writers = [w_ for w_ in writers if w_["op"] == "replace_gc"][:1]
     n = len(readers) + len(writers)
     order = draw(st.permutations(list(range(n))))
     pre = [[draw(st.integers(1, 160)), draw(st.integers(0, n - 1))] for _ in range(draw(st.integers(0, 3)))]
